@@ -1125,12 +1125,13 @@ fn exec(op: &str, args: &[Sexp]) -> Ans {
 			}
 		}
 		("oracle-cf-write-read", [mode, b]) => {
-			// full: read (write t) = t;  partial: the same up to the stack map frames of t (never written: known finding)
+			// full: read (write t) = t;  partial: the same up to the stack map frames of t (not written before 6210871)
 			let mode = tr!(mode.as_atom());
 			let b = tr!(b.as_bytes());
 			match catch_unwind(AssertUnwindSafe(|| cf_write_read(&b))) {
-				Ok(Ok("same")) => Ans::pass(),
-				Ok(Ok("frames" | "empty-lvt")) if mode == "partial" => Ans::pass(),
+				// an *empty* local variable table (`Some([])`, written as no attribute, read back as `None`) carries no facts
+				Ok(Ok("same" | "empty-lvt")) => Ans::pass(),
+				Ok(Ok("frames")) if mode == "partial" => Ans::pass(),
 				Ok(Ok(t)) => Ans::fail(t),
 				_ => Ans::out_of_domain(),
 			}
@@ -1713,7 +1714,7 @@ fn gen(r: &mut Rng, tier: Tier, out: &mut Out) {
 		out.stats.hit(if frames > 0 { "stream:class-with-frames" } else { "stream:class-without-frames" });
 		out.op("cf-write-read", &[hex(&c)]);
 		out.op("oracle-cf-write-read", &[Sexp::tag("partial"), hex(&c)]);
-		if frames == 0 { out.op("oracle-cf-write-read", &[Sexp::tag("full"), hex(&c)]); }
+		out.op("oracle-cf-write-read", &[Sexp::tag("full"), hex(&c)]);
 	} }
 	let mut files: Vec<_> = std::fs::read_dir("/verif/corpus/classes").map(|d| d.filter_map(|e| e.ok()).map(|e| e.path()).collect()).unwrap_or_else(|_| Vec::new());
 	files.sort();
@@ -1722,6 +1723,8 @@ fn gen(r: &mut Rng, tier: Tier, out: &mut Out) {
 		let Ok(bytes) = std::fs::read(&f) else { continue };
 		out.stats.hit("stream:corpus-class");
 		out.op("oracle-cf-write-read", &[Sexp::tag("partial"), hex(&bytes)]);
+		// since 6210871 (StackMapTable written) the javac corpus reads back with its frames
+		out.op("oracle-cf-write-read", &[Sexp::tag("full"), hex(&bytes)]);
 	}
 }
 
